@@ -197,6 +197,11 @@ class Translator:
         raise Unsupported(f'operator {type(op).__name__} (floats are outside the subset)')
 
     def compare(self, e, cx):
+        # `x is None` / `x is not None` on a parameter the kernel table types as an integer or a byte string: the models range over
+        # integers and byte strings only, so the test is decided (the None spelling itself is exercised by the file-contract oracle)
+        if len(e.ops) == 1 and isinstance(e.ops[0], (ast.Is, ast.IsNot)) and isinstance(e.comparators[0], ast.Constant) \
+                and e.comparators[0].value is None and isinstance(e.left, ast.Name) and cx.env.get(e.left.id) in (INT, SEQ):
+            return ('false' if isinstance(e.ops[0], ast.Is) else 'true'), BOOL
         terms = [self.expr(e.left, cx)] + [self.expr(c, cx) for c in e.comparators]
         out = []
         for i, op in enumerate(e.ops):
@@ -296,6 +301,13 @@ class Translator:
                 if ta != SEQ:
                     raise Unsupported('sha256 of non-bytes')
                 return f'(sha256 {a})', SEQ
+            # memoryview(b).cast('B'): the same bytes, seen one byte at a time (the models' byte strings are that already)
+            if f.attr == 'cast' and len(args) == 1 and isinstance(args[0], ast.Constant) and args[0].value == 'B' \
+                    and isinstance(f.value, ast.Call) and isinstance(f.value.func, ast.Name) and f.value.func.id == 'memoryview' and len(f.value.args) == 1:
+                a, ta = self.expr(f.value.args[0], cx)
+                if ta != SEQ:
+                    raise Unsupported('memoryview of a non-bytes value')
+                return a, SEQ
             if f.attr == 'encode' and len(args) == 1 and isinstance(args[0], ast.Constant) and args[0].value == 'utf-16le':
                 a, ta = self.expr(f.value, cx)
                 if ta != SEQ:
